@@ -186,7 +186,19 @@ pub fn formulas() -> Vec<TagExpr> {
     v
 }
 
-pub const REGEXES: [&str; 4] = ["alpha", "^beta$", "a.*a", "zzz"];
+/// (the last one is compiled case-insensitively: by a `RegexBuilder` flag when the options are
+/// built programmatically, by an inline flag when they come from the command line)
+pub const REGEXES: [&str; 5] = ["alpha", "^beta$", "a.*a", "zzz", "ALPHA"];
+
+fn name_regex(r: usize, via_clap: bool) -> Regex {
+    if r == 4 && !via_clap {
+        regex::RegexBuilder::new(REGEXES[r]).case_insensitive(true).build().unwrap()
+    } else if r == 4 {
+        Regex::new(&format!("(?i){}", REGEXES[r])).unwrap()
+    } else {
+        Regex::new(REGEXES[r]).unwrap()
+    }
+}
 
 fn closure(k: usize) -> fn(&gherkin::Feature, Option<&gherkin::Rule>, &gherkin::Scenario) -> bool {
     match k {
@@ -258,7 +270,7 @@ fn opts(fc: &FilterCfg, forms: &[TagExpr]) -> Opts {
         let mut args: Vec<String> = vec!["prog".into()];
         if let Some(r) = fc.re {
             args.push("--name".into());
-            args.push(REGEXES[r].into());
+            args.push(name_regex(r, true).as_str().to_owned());
         }
         if let Some(t) = fc.tags {
             args.push("--tags".into());
@@ -267,7 +279,7 @@ fn opts(fc: &FilterCfg, forms: &[TagExpr]) -> Opts {
         <Opts as clap::Parser>::try_parse_from(args).expect("clap")
     } else {
         Opts {
-            re_filter: fc.re.map(|r| Regex::new(REGEXES[r]).unwrap()),
+            re_filter: fc.re.map(|r| name_regex(r, false)),
             tags_filter: fc.tags.map(|t| forms[t].render().parse::<TagOperation>().expect("tagexpr")),
             parser: cli::Empty,
             runner: runner::basic::Cli::default(),
@@ -286,7 +298,7 @@ fn accepts(
     s: &gherkin::Scenario,
 ) -> bool {
     if let Some(re) = fc.re {
-        return Regex::new(REGEXES[re]).unwrap().is_match(&s.name);
+        return name_regex(re, fc.via_clap).is_match(&s.name);
     }
     if let Some(t) = fc.tags {
         let mut all: Vec<&str> = f.tags.iter().map(String::as_str).collect();
